@@ -40,3 +40,16 @@ def compare(log, model_line):
         if g != w:
             diffs.append("invocation %d: expected %r, observed %r" % (i, w, g))
     return diffs
+
+
+def property_breaches(log):
+    """Concrete breaches of C13's own statement visible in a log, independent of the model: an invocation other than
+    the initial `git -C . rev-parse --git-dir` without --no-replace-objects or without GIT_DIR / GIT_GRAFT_FILE=/dev/null."""
+    out = []
+    for i, (flags, rest, rec) in enumerate(log_to_invs(log)):
+        if i == 0 and rec["argv"][:4] == ["-C", ".", "rev-parse", "--git-dir"]:
+            continue
+        if flags != "11":
+            out.append("invocation %d (%s) runs %s" % (i, " ".join(rec["argv"][:6]),
+                       "without --no-replace-objects" if flags[0] == "0" else "without GIT_DIR / GIT_GRAFT_FILE=/dev/null"))
+    return out
